@@ -128,8 +128,14 @@ def ext_ffi_check(workdir, tier, seed, sh, vh):
     """C17: build the cdylib from /repo's working tree, let the native harness prepare verifications, drive the C ABI through ctypes"""
     import json, os, sys
     harness = os.path.dirname(os.path.dirname(os.path.dirname(vh)))
-    rc, out, _ = sh(['cargo', 'build', '--offline', '-p', 'anoncreds'], cwd=harness, timeout=3600)
-    so = os.path.join(harness, 'target', 'debug', 'libanoncreds.so')
+    if os.environ.get('VH_NOHOOKS') == '1':
+        # the tree does not compile with the hook modules (see vcheck.harness_build): same fallback for the cdylib
+        tdir = os.path.join(harness, 'target-nohooks')
+        rc, out, _ = sh(['cargo', 'build', '--offline', '-p', 'anoncreds', '--target-dir', tdir], cwd=harness, timeout=3600, env={'RUSTFLAGS': '--cfg anoncreds_verif_off'})
+        so = os.path.join(tdir, 'debug', 'libanoncreds.so')
+    else:
+        rc, out, _ = sh(['cargo', 'build', '--offline', '-p', 'anoncreds'], cwd=harness, timeout=3600)
+        so = os.path.join(harness, 'target', 'debug', 'libanoncreds.so')
     if rc != 0 or not os.path.exists(so):
         raise RuntimeError('cdylib build failed: ' + out[-800:])
     rc, out, _ = sh([vh, 'ffi_flows', '--seed', str(seed), '--tier', tier, '--out', '/dev/null'], cwd=harness, timeout=3600)
